@@ -217,6 +217,12 @@ func pruneHashKeyedUpto(
 		}
 
 		if batch.Size() >= targetBatchByteSize {
+			// The retention floor is re-derived from the block commitments after
+			// a restart: drop them together with the history they vouch for, so a
+			// crash between two batches never advertises a half-pruned block.
+			if err := blockCommitmentsRange.Prefix().DeleteRange(batch, 0, blockNum+1); err != nil {
+				return 0, err
+			}
 			if err := batch.Write(); err != nil {
 				return 0, err
 			}
@@ -224,6 +230,9 @@ func pruneHashKeyedUpto(
 		}
 	}
 
+	if err := blockCommitmentsRange.Prefix().DeleteRange(batch, 0, blockNum); err != nil {
+		return 0, err
+	}
 	return blockNum, batch.Write()
 }
 
